@@ -746,6 +746,49 @@ func ruleC03c(c *Ctx) {
 			}
 		}
 		c.check(positive, name, "every matching token adds a positive score", p.pos(scorer.Pos()), itoa(len(incs))+" increments, all > 0", "a matching token can leave the score unchanged or lower it: a longer matching root need not beat its own prefix")
+		// every iteration that goes on to the next token has incremented the accumulator
+		cyc := blocksOnCycles(scorer)
+		unchanged := ""
+		for v := range family {
+			hp, ok := v.(*ssa.Phi)
+			if !ok || !cyc[hp.Block()] {
+				continue
+			}
+			// the loop-header phi: it has an edge from outside the loop
+			outside := false
+			for _, pr := range hp.Block().Preds {
+				if !cyc[pr] || !reachableBlocks([]*ssa.BasicBlock{hp.Block()}, nil)[pr] {
+					outside = true
+				}
+			}
+			if !outside {
+				continue
+			}
+			var leaves func(x ssa.Value, seen map[ssa.Value]bool)
+			leaves = func(x ssa.Value, seen map[ssa.Value]bool) {
+				x = strip(x)
+				if seen[x] {
+					return
+				}
+				seen[x] = true
+				if x == ssa.Value(hp) {
+					unchanged = "an iteration reaches the next token with the score unchanged (phi at " + p.ipos(hp) + ")"
+					return
+				}
+				if ph, ok := x.(*ssa.Phi); ok {
+					for _, e := range ph.Edges {
+						leaves(e, seen)
+					}
+				}
+			}
+			for k, e := range hp.Edges {
+				pr := hp.Block().Preds[k]
+				if cyc[pr] && reachableBlocks([]*ssa.BasicBlock{hp.Block()}, nil)[pr] {
+					leaves(e, map[ssa.Value]bool{})
+				}
+			}
+		}
+		c.check(unchanged == "", name, "every matched token increments the score before the next one is examined", p.pos(scorer.Pos()), "no path through the loop body leaves the accumulator unchanged", unchanged+": two roots that differ only in such tokens tie, and registration order decides")
 		c.check(minWeighted < 1<<40 && minWeighted > maxConst, name, "a literal token adds strictly more than a variable token", p.pos(scorer.Pos()),
 			"literal >= "+itoa(int(minWeighted))+" (position weight, index < len proven by the loop test), variable/empty = "+itoa(int(maxConst)),
 			"the smallest literal increment ("+itoa(int(minWeighted))+") does not exceed the variable increment ("+itoa(int(maxConst))+"): a literal root and a variable root can tie, and registration order decides")
@@ -793,6 +836,27 @@ func ruleC03c(c *Ctx) {
 		}
 		if nrep > 0 && allStrict {
 			strict = true
+		}
+		// the remembered best score moves with the best service
+		for k, e := range phi.Edges {
+			if e == ssa.Value(phi) || isNilConst(e) {
+				continue
+			}
+			if _, isPhi := e.(*ssa.Phi); isPhi {
+				continue
+			}
+			moved := false
+			for _, ins := range phi.Block().Instrs {
+				sp, ok := ins.(*ssa.Phi)
+				if !ok {
+					break
+				}
+				if sp != phi && k < len(sp.Edges) && strip(sp.Edges[k]) == scoreVal {
+					moved = true
+				}
+			}
+			c.check(moved, sname, "the best score is updated together with the best service", p.ipos(scoreCall), "on the replacing edge the remembered score becomes this service's score",
+				"the best service is replaced but the score it is compared with is not updated: every later service with any score above the initial value replaces it, so the last match wins instead of the best")
 		}
 	})
 	c.check(strict, sname, "the best root is replaced only by a strictly better one", p.ipos(scoreCall), "eachScore > score", "the best service is replaced on an equal score as well")
